@@ -121,3 +121,25 @@ pub mod r_mod {
         loop {}
     }
 }
+
+// a hand-written (non-async) future return: the bounds the user wrote, no more (in particular no `Send`)
+#[entrait(R20)]
+fn r20(deps: &impl Dep, n: u8) -> impl core::future::Future<Output = u8> {
+    let local = std::rc::Rc::new(n);
+    async move { *local }
+}
+#[entrait(R21)]
+fn r21(deps: &impl Dep, n: u8) -> impl core::future::Future<Output = u8> + Send + 'static {
+    async move { n }
+}
+#[entrait(pub RFutMod)]
+pub mod r_fut_mod {
+    use super::Dep;
+    pub fn local_future(deps: &impl Dep, n: u8) -> impl core::future::Future<Output = u8> {
+        let local = std::rc::Rc::new(n);
+        async move { *local }
+    }
+    pub async fn sendable(deps: &impl Dep, n: u8) -> u8 {
+        n
+    }
+}
